@@ -65,6 +65,14 @@ def cases(draw, tier):
     case = {"g": g, "cfg": cfg, "ns": ns, "ops": ops}
     if size == "small" and draw(st.integers(0, 2)) == 0:
         case["targets"] = draw(st.lists(st.sampled_from(g["classes"]), min_size=1, max_size=len(g["classes"]), unique=True))
+    if size == "small" and "targets" not in case and draw(st.integers(0, 3)) == 0:
+        # shape-map shapes (they can be emptied by a threshold and must come back at a lower one)
+        from . import c10
+        n = draw(st.integers(1, 3))
+        case["sm_items"] = [{"sel": draw(c10.selector(g)), "label": "<http://sh.org/S%d>" % (i if draw(st.integers(0, 2)) else 0),
+                             "styles": draw(st.lists(st.integers(0, 1), min_size=4, max_size=4))} for i in range(n)]
+        case["sm_with_all"] = draw(st.booleans())
+        case["ns"] = None
     if draw(st.integers(0, 3)) == 0:
         case["ignore"] = draw(st.lists(st.sampled_from(["http://ex.org/ns/", "http://other.org/v#"]), min_size=1, max_size=2, unique=True))
     return case
@@ -81,7 +89,14 @@ def make_kwargs(case, ns_obj, shared=None):
         g = big_graph(g["big"])
     triples = triples_from_json(g["triples"])
     kw = dict(raw_graph=to_nt(triples))
-    if case.get("targets"):
+    if case.get("sm_items"):
+        from .. import selectors
+        from . import c10
+        kw["shape_map_raw"] = "\n".join("%s@%s" % (selectors.render(it["sel"], c10.NSD, it["styles"]), it["label"]) for it in case["sm_items"])
+        kw["namespaces_dict"] = dict(c10.NSD)
+        if case.get("sm_with_all"):
+            kw["all_classes_mode"] = True
+    elif case.get("targets"):
         kw["target_classes"] = shared["targets"] if shared else list(case["targets"])
     else:
         kw["all_classes_mode"] = True
@@ -130,12 +145,21 @@ def same_text(fmt, a, b):
 def check(case):
     labels = set()
     ops = case["ops"]
+    if case.get("sm_items"):
+        # selectors answering blank nodes are outside the domain (rdflib re-labels them at random on every parse)
+        from .. import selectors
+        triples = triples_from_json(case["g"]["triples"])
+        for it in case["sm_items"]:
+            if any(a[0] != "iri" for a in selectors.evaluate(it["sel"], triples)):
+                return discard("non-iri-answer")
     calls = [o for o in ops if o[0] != "new_shaper"]
     nt = len({tuple(o) for o in calls}) >= 2 or "big" in case["g"]
     if "big" in case["g"]:
         labels.add("big-output")
     if any(o[0] == "new_shaper" for o in ops):
         labels.add("second-shaper")
+    if case.get("sm_items"):
+        labels.add("shape-map")
     if len(calls) >= 2:
         labels.add("repeated-calls")
     if nt:
